@@ -858,6 +858,10 @@ class BasePort(logging_utils.LoggableMixin, metaclass=abc.ABCMeta):
             self.debug('expression "%s" evaluated to %s', expression, json_utils.dumps(value))
             try:
                 await self.transform_and_write_value(value)
+
+                # Refresh the last read values before evaluating any further queued context; otherwise the next result
+                # would be compared with a value that does not yet reflect the write that has just completed
+                await main.update()
             except Exception as e:
                 self.error('failed to write value: %s', e)
 
